@@ -24,6 +24,7 @@ type BitDef struct {
 
 // Type is the effective type of a leaf or leaf-list.
 type Type struct {
+	Name    string    `json:"name,omitempty"` // when set: the type statement names this typedef (Base stays the built-in it derives from)
 	Base    string    `json:"base"` // int8..uint64, decimal64, string, boolean, enumeration, bits, identityref, binary, empty, union, leafref
 	FD      int       `json:"fd,omitempty"`
 	Enums   []EnumDef `json:"enums,omitempty"`
@@ -167,7 +168,11 @@ func (t *Type) yang(b *strings.Builder) {
 	case "identityref":
 		fmt.Fprintf(b, "type identityref { base %s; }", t.IdBase)
 	case "decimal64":
-		fmt.Fprintf(b, "type decimal64 { fraction-digits %d;", t.FD)
+		if t.Name != "" {
+			fmt.Fprintf(b, "type %s {", t.Name)
+		} else {
+			fmt.Fprintf(b, "type decimal64 { fraction-digits %d;", t.FD)
+		}
 		if t.Range != "" {
 			fmt.Fprintf(b, " range %s;", quoteArg(t.Range))
 		}
@@ -182,11 +187,15 @@ func (t *Type) yang(b *strings.Builder) {
 	case "leafref":
 		fmt.Fprintf(b, "type leafref { path %s; }", quoteArg(t.Path))
 	default:
+		name := t.Base
+		if t.Name != "" {
+			name = t.Name
+		}
 		if t.Range == "" && t.Length == "" && len(t.Patterns) == 0 {
-			fmt.Fprintf(b, "type %s;", t.Base)
+			fmt.Fprintf(b, "type %s;", name)
 			return
 		}
-		fmt.Fprintf(b, "type %s {", t.Base)
+		fmt.Fprintf(b, "type %s {", name)
 		if t.Range != "" {
 			fmt.Fprintf(b, " range %s;", quoteArg(t.Range))
 		}
@@ -194,7 +203,11 @@ func (t *Type) yang(b *strings.Builder) {
 			fmt.Fprintf(b, " length %s;", quoteArg(t.Length))
 		}
 		for _, p := range t.Patterns {
-			fmt.Fprintf(b, " pattern %s;", quoteArg(p))
+			if strings.HasPrefix(p, "!") {
+				fmt.Fprintf(b, " pattern %s { modifier invert-match; }", quoteArg(p[1:]))
+			} else {
+				fmt.Fprintf(b, " pattern %s;", quoteArg(p))
+			}
 		}
 		b.WriteString(" }")
 	}
